@@ -555,6 +555,13 @@ func buildURI(uc *URICase) *protocol.URI {
 	switch uc.QMode {
 	case "raw":
 		setQuery(string(uc.Raw))
+	case "raw-del":
+		// the application removes every argument again: no query is left
+		setQuery(string(uc.Raw))
+		qa := u.QueryArgs()
+		for _, p := range listOf(qa) {
+			qa.Del(string(p.K))
+		}
 	case "args":
 		setQuery("")
 		qa := u.QueryArgs()
@@ -604,6 +611,9 @@ func checkURI(c *mc.Ctx, st *stats, uc *URICase) {
 	}
 	desc := func() string {
 		q := fmt.Sprintf("raw query %q", string(uc.Raw))
+		if uc.QMode == "raw-del" {
+			q += " with every argument deleted again"
+		}
 		if uc.QMode == "args" {
 			q = "query args " + fmtList(uc.Args)
 		} else if uc.QMode == "none" {
@@ -627,7 +637,7 @@ func checkURI(c *mc.Ctx, st *stats, uc *URICase) {
 		c.Violate(uriKey(uc, "setter", "path"), fmt.Sprintf("%s: Path() after SetPath = %q", desc(), pre.path), cs)
 		return
 	}
-	if pre.scheme != want.scheme || pre.host != want.host || pre.hash != want.hash || (uc.QMode != "args" && pre.query != want.query) {
+	if pre.scheme != want.scheme || pre.host != want.host || pre.hash != want.hash || (uc.QMode != "args" && uc.QMode != "raw-del" && pre.query != want.query) {
 		c.Violate(uriKey(uc, "setter", "other"), fmt.Sprintf("%s: getters after the setters show %+v, want %+v", desc(), pre, want), cs)
 		return
 	}
@@ -741,6 +751,21 @@ func buildCookie(cc *CookieCase, reused bool) *protocol.Cookie {
 	ck.SetPartitioned(cc.Partitioned)
 	return ck
 }
+
+// canary renders a few observations that depend only on package-level constants of hertz (the shared "/" slice,
+// default method, protocol and content type): whatever an application does with its own objects, they must not change.
+func canary() string {
+	var u protocol.URI
+	u.Parse(nil, []byte("http://canary.example"))
+	var rh protocol.RequestHeader
+	var ck protocol.Cookie
+	ck.SetPath("/x/../..")
+	var r protocol.Request
+	r.SetRequestURI("http://canary.example")
+	return fmt.Sprintf("uri.path=%q full=%q method=%q requri=%q cookie.path=%q req.path=%q", u.Path(), u.FullURI(), rh.Method(), rh.RequestURI(), ck.Path(), r.URI().Path())
+}
+
+var canary0 = canary()
 
 type cookieView struct {
 	Key, Value, Domain, Path string
@@ -861,8 +886,18 @@ func checkCookie(c *mc.Ctx, st *stats, cc *CookieCase) {
 			string(cc.Key), string(cc.Value), cc.MaxAge, e, string(cc.Domain), string(cc.Path), cc.HTTPOnly, cc.Secure, cc.SameSite, cc.Partitioned)
 	}
 
+	if p := string(cc.Path); p == "/.." || p == "/a/../.." {
+		want.Path = "/" // the path setter resolves dot segments (C07); these two climb to the root
+	}
 	ck := buildCookie(cc, false)
 	s := append([]byte(nil), ck.Cookie()...)
+	defer func() {
+		// the application recycles the object it built: parse something short into it, then look at process-wide state
+		_ = ck.ParseBytes([]byte("k=v; path=x"))
+		if now := canary(); now != canary0 {
+			c.Violate("global-state|cookie", fmt.Sprintf("%s: after this cookie object was re-used for ParseBytes(%q), values derived from package-level constants changed process-wide: %s (was %s)", desc(), "k=v; path=x", now, canary0), cs)
+		}
+	}()
 	if s2 := buildCookie(cc, true).Cookie(); !bytes.Equal(s, s2) {
 		c.Violate("cookie|reset-incomplete", fmt.Sprintf("%s: built on a fresh Cookie gives %q, built on a Cookie that was parsed from %q and Reset() gives %q", desc(), s, dirtyCookie, s2), cs)
 		return
@@ -1146,7 +1181,7 @@ func enumURI(c *mc.Ctx) {
 		mode, raw string
 		args      []Pair
 	}
-	ctxQuery := []qv{{"none", "", nil}, {"raw", "a=1&b", nil}, {"raw", "%41=%zz&+", nil}, {"args", "", []Pair{{"k", "v w"}, {"k", "&=#"}}}}
+	ctxQuery := []qv{{"none", "", nil}, {"raw", "a=1&b", nil}, {"raw-del", "a=1&b", nil}, {"raw-del", "token=s3cret", nil}, {"raw", "%41=%zz&+", nil}, {"args", "", []Pair{{"k", "v w"}, {"k", "&=#"}}}}
 
 	var cases []uriCtx
 	for _, p := range stringsUpTo(pathAlpha, n) {
@@ -1297,7 +1332,7 @@ func enumCookies(c *mc.Ctx) {
 	kvs := []kvp{{"k", "v"}, {"K.1", "a=b c,d"}, {"", "v"}, {"k", ""}}
 	maxAges := []int{0, 1, 86400, 2147483647}
 	domains := []string{"", "example.com", ".Sub.Example.COM"}
-	paths := []string{"", "/", "/a/B c"}
+	paths := []string{"", "/", "/a/B c", "/..", "/a/../.."}
 	var combos []CookieCase
 	for _, ma := range maxAges {
 		for e := -1; e < len(instants); e++ {
